@@ -102,7 +102,9 @@ func CallArgs(args ...interface{}) CallOption {
 				results = make([]reflect.Value, len(in))
 				for i, in := range in {
 					results[i] = reflect.New(in).Elem()
-					results[i].Set(reflect.ValueOf(args[i]))
+					if args[i] != nil {
+						results[i].Set(reflect.ValueOf(args[i]))
+					}
 				}
 				return
 			},
@@ -119,6 +121,9 @@ func CallResults(results ...interface{}) CallOption {
 			return fmt.Errorf(`bigbuff.CallResults results error: invalid length: mandatory=%d len=%d`, len(out), len(results))
 		}
 		for i, out := range out {
+			if results[i] == nil {
+				return fmt.Errorf(`bigbuff.CallResults results[%d] error: nil`, i)
+			}
 			v := reflect.ValueOf(results[i])
 			t := v.Type()
 			if kind := t.Kind(); kind != reflect.Ptr {
@@ -269,6 +274,14 @@ func resolveArgs(this reflect.Type, args []reflect.Type) ([]reflect.Type, error)
 		return nil, fmt.Errorf(`args error: invalid length: mandatory=%d variadic=%v len=%d`, len(in), variadic != nil, len(args))
 	}
 	for i, in := range in {
+		if args[i] == nil {
+			// untyped nil: the zero value of any nilable parameter type
+			switch in.Kind() {
+			case reflect.Chan, reflect.Func, reflect.Interface, reflect.Map, reflect.Ptr, reflect.Slice, reflect.UnsafePointer:
+				continue
+			}
+			return nil, fmt.Errorf(`args[%d] error: nil not assignable to %v`, i, in)
+		}
 		if !args[i].AssignableTo(in) {
 			return nil, fmt.Errorf(`args[%d] error: %v not assignable to %v`, i, args[i], in)
 		}
